@@ -1,0 +1,25 @@
+//! Verification hooks, compiled only with `--cfg folo_verif` (deterministic-simulation harnesses).
+//!
+//! Named cooperative points at which a harness-installed handler runs (typically to yield the
+//! thread so that a seeded scheduler explores the windows around lazy worker start-up and
+//! shutdown). Without a handler the points do nothing.
+#![allow(missing_docs, reason = "verification-only hook module")]
+
+use std::sync::atomic::{AtomicUsize, Ordering};
+
+static HANDLER: AtomicUsize = AtomicUsize::new(0);
+
+/// Installs (or clears) the handler invoked at every simulation point with the point's name.
+pub fn set_sim_point_handler(handler: Option<fn(&'static str)>) {
+    HANDLER.store(handler.map_or(0, |f| f as usize), Ordering::Relaxed);
+}
+
+#[inline]
+pub(crate) fn sim_point(name: &'static str) {
+    let raw = HANDLER.load(Ordering::Relaxed);
+    if raw != 0 {
+        // SAFETY: The only non-zero values ever stored are `fn(&'static str)` pointers.
+        let handler = unsafe { std::mem::transmute::<usize, fn(&'static str)>(raw) };
+        handler(name);
+    }
+}
